@@ -1,5 +1,6 @@
 import Nsq.Model.HttpApi
 import Nsq.Proofs.ProtoV2
+import Nsq.Proofs.Mpub
 /-! Helper lemmas and statement predicates for the HTTP API model (`Nsq.Model.HttpApi`). -/
 namespace Nsq.Proofs.HttpApi
 open Nsq.Model.HttpApi Nsq.Model.ProtoV2 Nsq.Model.Names Nsq.Model.Base10 Nsq.Model
@@ -15,7 +16,7 @@ def Oversize (hc : HConf) (rq : Request) : Prop :=
   rq.contentLength > hc.maxMsgSize ∨ rq.contentLength > hc.maxBodySize ∨
   ((pubData hc rq).length : Int) = hc.maxMsgSize + 1 ∨
   (∃ e, mpubText hc rq.body = .error e) ∨
-  (∃ c, Mpub.readMPUB hc.maxMsgSize hc.maxBodySize rq.body = .err c) ∨
+  (∃ c, Mpub.readMPUB hc.maxMsgSize hc.maxBodySize (rq.body.take hc.maxBodySize.toNat) = .err c) ∨
   (rq.method = ascii "PUT" ∧ (pubData hc rq).isEmpty)
 
 /-- 400: an argument is missing or invalid. -/
@@ -573,6 +574,74 @@ theorem admin_frame (hc : HConf) (healthy : Bool) (b : Broker) (rq : Request) (h
                | exact onlyTopic_deleteChannel b t c
                | exact onlyTopic_modifyChan b t c _)
 
+
+/-! ## max-body-size bounds every accepted /mpub -/
+
+theorem textLoop_over (maxMsg : Int) : ∀ (blocks : List Bytes), blocks ≠ [] → ∀ r, textLoop maxMsg true blocks ≠ .ok r
+  | [], h, _ => absurd rfl h
+  | [blk], _, r => by simp [textLoop]
+  | blk :: c :: rest, _, r => by
+    unfold textLoop
+    by_cases h1 : (true && ((c :: rest).isEmpty || (c :: rest) == [[]])) = true
+    · rw [if_pos h1]; simp
+    · rw [if_neg h1]
+      have ih := textLoop_over maxMsg (c :: rest) (by simp)
+      split
+      · exact ih r
+      · split
+        · simp
+        · split
+          · simp
+          · rename_i ms hms
+            exact absurd hms (ih ms)
+
+theorem splitNl_ne_nil : ∀ (b : Bytes), Mpub.splitNl b ≠ []
+  | [] => by simp [Mpub.splitNl]
+  | c :: cs => by
+    unfold Mpub.splitNl
+    split
+    · simp
+    · split <;> simp
+
+/-- An accepted text `/mpub` body is at most max-body-size bytes long. -/
+theorem mpubText_bounded (hc : HConf) (body : Bytes) (r : List Bytes) (h0 : 0 ≤ hc.maxBodySize)
+    (h : mpubText hc body = .ok r) : (body.length : Int) ≤ hc.maxBodySize := by
+  unfold mpubText at h
+  by_cases hov : ((body.take (hc.maxBodySize + 1).toNat).length : Int) = hc.maxBodySize + 1
+  · simp only [hov, decide_true] at h
+    exact absurd h (textLoop_over _ _ (splitNl_ne_nil _) r)
+  · rw [List.length_take] at hov
+    omega
+
+/-- An accepted binary `/mpub` enqueues a batch whose wire image lies within the first
+max-body-size bytes of the body (whatever the declared length, chunked included). -/
+theorem mpub_binary_bounded (hc : HConf) (b : Broker) (rq : Request) (kv : List (Bytes × Bytes))
+    (hq : parseQuery rq.rawQuery = some kv) (hbin : binaryMode kv = true)
+    (h : (doMPUB hc b rq).1.status = .s200) :
+    ∃ t bodies r, Mpub.readMPUB hc.maxMsgSize hc.maxBodySize (rq.body.take hc.maxBodySize.toNat) = .ok bodies r ∧
+      rq.body.take hc.maxBodySize.toNat = Mpub.encode bodies ++ r ∧
+      ((Mpub.encode bodies).length : Int) ≤ hc.maxBodySize ∧
+      (doMPUB hc b rq).2 = publish b t (toMsgs bodies) := by
+  unfold doMPUB at h ⊢
+  split at h
+  · simp [resp] at h
+  · split at h
+    · simp [resp] at h
+    · rename_i t ht
+      simp only [hq, Option.getD_some, hbin, if_true] at h ⊢
+      split at h
+      · simp [resp] at h
+      · simp [resp] at h
+      · rename_i bodies r hm
+        have hw := Nsq.Proofs.Mpub.readMPUB_wire _ _ _ _ _ hm
+        rename_i hcl _ _
+        refine ⟨t, bodies, r, hm, hw, ?_, by rw [if_neg hcl]; rfl⟩
+        have hl : (rq.body.take hc.maxBodySize.toNat).length ≤ hc.maxBodySize.toNat := by
+          rw [List.length_take]; omega
+        rw [hw, List.length_append] at hl
+        have hpos : 4 ≤ (Mpub.encode bodies).length := by
+          simp [Mpub.encode, Nsq.Proofs.Mpub.be32_length]
+        omega
 
 /-! ## Concrete values for the non-vacuity examples -/
 namespace Examples
